@@ -107,6 +107,6 @@ CLAIMS["C06"] = (
 
 CLAIMS["C08"] = (
     "Append as contracts on the real code: SubstreamsInfo.write (exact layout for every folder/stream count: NumUnpackStream record iff some folder differs from one, a size NUMBER for every substream except the last of its folder with the cursor over ALL substreams, Digests structure, END) and PackInfo.write proved byte-exactly with ghost cut offsets; FilesInfo writers (C07); Header.initialize in append mode adds exactly one folder at the end, bumps the folder count and appends a zero stream counter, touching nothing else; Worker._after_write appends one size/CRC/flag and increments the LAST folder's counter; Worker.flush_archive records exactly one pack stream; Worker.__init__ starts the write cursor behind the existing members; _prepare_append positions the file at the end of the packed streams; PackInfo._read (re-read side).",
-    "Histories are not enumerated: each session is the same code under the same contracts and the member list after a session is old ++ new by these per-call contracts (written argument, DESIGN.md 7). UnpackInfo.write / Folder.write / Header.write and the whole-header round trip are not under contract yet. Genuine defects found and repaired: FX11 (CRC per defined digest), FX12 (w([a]) a([b,c]) corrupted the archive), FX15 (zero-stream folders).",
+    "BOUNDED stand-in (labelled bounded in the evidence, not counted as proved): every 2-session history with up to 2 members per session over file / zero-length file / directory / zero-length writestr plus 100 seeded 3-session histories is run on the real code each quick run (all 3-session histories in the thorough tier). Otherwise histories are not enumerated: each session is the same code under the same contracts and the member list after a session is old ++ new by these per-call contracts (written argument, DESIGN.md 7). UnpackInfo.write / Folder.write / Header.write and the whole-header round trip are not under contract yet. Genuine defects found and repaired: FX11 (CRC per defined digest), FX12 (w([a]) a([b,c]) corrupted the archive), FX15 (zero-stream folders).",
     "DESIGN.md 7 (C08), 11",
 )
